@@ -394,12 +394,41 @@ func c14Wiring(c *Ctx) {
 	r.Check(len(gbad) == 0, "R14-wiring", "board.Board getters return the fields they are named after", "", "", strings.Join(gbad, "; "))
 	if reset := c.fn("R14-wiring", "pkg/engine", "Engine", "Reset"); reset != nil {
 		nb := c.find("pkg/board", "", "NewBoard")
-		calls := callsTo(reset, nb)
+		decodeFn := c.find("pkg/board/fen", "", "Decode")
+		// NewBoard(zt, the four results of fen.Decode(position) in order) - in Reset or a helper of it
+		evs := flatten(reset, func(ins ssa.Instruction, fr *flatFrame) (string, *types.Var, ssa.Value) {
+			if call, ok := ins.(*ssa.Call); ok && call.Call.StaticCallee() == nb {
+				return "newboard", nil, call
+			}
+			return "", nil, nil
+		})
 		got := ""
-		if len(calls) == 1 {
+		if len(evs) == 1 {
+			call := evs[0].Val.(*ssa.Call)
 			var a []string
-			for _, x := range calls[0].Common().Args {
-				a = append(a, pathExpr(x))
+			for i, x := range call.Call.Args {
+				x = evs[0].frame.resolve(x)
+				switch {
+				case i == 0:
+					a = append(a, pathExpr(x))
+				default:
+					ex, ok := x.(*ssa.Extract)
+					dc, _ := func() (*ssa.Call, bool) {
+						if !ok {
+							return nil, false
+						}
+						cc, ok2 := ex.Tuple.(*ssa.Call)
+						return cc, ok2
+					}()
+					if ok && dc != nil && dc.Call.StaticCallee() == decodeFn && len(dc.Call.Args) == 1 {
+						src := evs[0].frame.resolve(dc.Call.Args[0])
+						if prm, isP := src.(*ssa.Parameter); isP && prm.Parent() == reset {
+							a = append(a, fmt.Sprintf("Decode(position)#%d", ex.Index))
+							continue
+						}
+					}
+					a = append(a, pathExpr(x))
+				}
 			}
 			got = strings.Join(a, ",")
 		}
